@@ -6,8 +6,9 @@
 (* as JSON for the Go driver (vf_envelope_verif_test.go).                    *)
 EXTENDS Envelope, Json
 
-CONSTANTS Mode,     \* "forge" | "tamper" | "honest"
-          MaxDiff   \* forge mode: keep forgeries within this many field substitutions of an honest envelope
+CONSTANTS Mode,     \* subset of {"forge", "tamper", "honest"}: which kinds of script to enumerate
+          MaxDiff,  \* forge mode: keep forgeries within this many field substitutions of an honest envelope
+          Sample    \* TRUE (with -simulate): draw each forged field at random instead of enumerating the product
 
 VARIABLES h
 gvars == <<vars, h>>
@@ -26,36 +27,38 @@ Near(f) == \E i \in 1..Len(henv) : Diff(f, henv[i]) <= MaxDiff \/ (Coherent(f) /
 SigLabel(f) == IF \E i \in 1..Len(henv) : henv[i].sg = f.sg
                  THEN HL[CHOOSE i \in 1..Len(henv) : henv[i].sg = f.sg] ELSE "own"
 
+Pick(S) == IF Sample THEN {RandomElement(S)} ELSE S
+
 GInit == Init /\ h = <<>>
 
 GSeal == Seal /\ Rec("seal", [d |-> SealPlan[ns + 1][1], g |-> SealPlan[ns + 1][2], id |-> HL[ns + 1], p |-> PL[ns + 1]])
 
-GForge == /\ Mode = "forge" /\ CanMutate
-          /\ \E hs \in G, dv \in DevKeys, ct \in Ctr, key \in AdvMsgKeys, bn \in Ctr, pl \in Payloads :
-               \E sg \in AdvSigs(hs, ct, pl) :
+GForge == /\ "forge" \in Mode /\ CanMutate
+          /\ \E hs \in Pick(G), dv \in Pick(DevKeys), ct \in Pick(Ctr), key \in Pick(AdvMsgKeys), bn \in Pick(Ctr), pl \in Pick(Payloads) :
+               \E sg \in Pick(AdvSigs(hs, ct, pl)) :
                  LET f == [hs |-> hs, dv |-> dv, ct |-> ct, sg |-> sg, key |-> key, bn |-> bn, pl |-> pl, tam |-> "none"] IN
                    /\ Near(f) /\ Forge(f)
                    /\ Rec("forge", [hs |-> hs, dv |-> dv, ct |-> ct, kg |-> key[1], kd |-> key[2], kk |-> key[3],
                                     bn |-> bn, pl |-> pl, sg |-> SigLabel(f)])
 
-GTamper == /\ Mode = "tamper" /\ CanMutate
+GTamper == /\ "tamper" \in Mode /\ CanMutate
            /\ \E i \in 1..Len(henv), fld \in Tampers :
                 Tamper(i, fld) /\ Rec("tamper", [base |-> HL[i], fld |-> fld])
 
+Opened(id) == \E i \in 1..Len(h) : h[i].act = "open" /\ h[i].a.id = id
 \* which receiver calls are worth a script
 Related(e, f) == (e.hs = f.hs /\ e.dv = f.dv /\ e.ct = f.ct) \/ e.sg = f.sg \/ e.pl = f.pl
 OpenAllowed(id, g) ==
-  CASE Mode = "forge"  -> fz # <<>> /\ (id = "f" \/ (IsHonest(id) /\ g = Env(id).hs /\ Related(Env(id), fz[1])))
-    [] Mode = "tamper" -> tz # <<>> /\ ((id = "t" /\ g = Env(id).hs) \/ (id = HL[tz[1].base] /\ g = Env(id).hs))
-    [] Mode = "honest" -> ns = Len(SealPlan) /\ IsHonest(id)
+  IF fz # <<>> THEN id = "f" \/ (IsHonest(id) /\ g = Env(id).hs /\ Related(Env(id), fz[1]))
+  ELSE IF tz # <<>> THEN (id = "t" /\ g = Env(id).hs /\ ~Opened("t")) \/ (id = HL[tz[1].base] /\ g = Env(id).hs)
+  ELSE "honest" \in Mode /\ ns = Len(SealPlan) /\ IsHonest(id)
 
 GOpen == \E id \in Labels, g \in G : OpenAllowed(id, g) /\ Open(id, g) /\ Rec("open", [id |-> id, g |-> g])
 
 GNext == GSeal \/ GForge \/ GTamper \/ GOpen
 GSpec == GInit /\ [][GNext]_gvars
 
-Opened(id) == \E i \in 1..Len(h) : h[i].act = "open" /\ h[i].a.id = id
 Complete == /\ nopen >= 1 /\ h[Len(h)].act = "open"
-            /\ CASE Mode = "forge" -> Opened("f") [] Mode = "tamper" -> Opened("t") [] Mode = "honest" -> nopen = MaxOpen
+            /\ IF fz # <<>> THEN Opened("f") ELSE IF tz # <<>> THEN Opened("t") ELSE nopen = MaxOpen
 Dump == Complete => PrintT(<<"SCRIPT", ToJson(h)>>)
 =============================================================================
